@@ -30,7 +30,7 @@ IsPrintRune(c) == IF c < 0 THEN TRUE                       \* invalid byte -> U+
                   ELSE IF c < 32 \/ c = 127 THEN FALSE
                   ELSE IF c <= 126 THEN TRUE
                   ELSE IF c < 161 THEN FALSE               \* C1 controls and NBSP
-                  ELSE c \notin {173, 8232, 8233, 12288, 65279, 8203}
+                  ELSE c \notin {173, 8232, 8233, 12288, 65279, 8203, 57344, 1114111}   \* ... private use, a noncharacter
 IsIdentRune(c) == c \notin {SP, 40, 41, 91, 93, 123, 125, 44} /\ ~IsSpaceRune(c) /\ IsPrintRune(c)
 
 \* ------------------------------------------------------------------ lexer
